@@ -168,3 +168,49 @@ func vh_C08_connect_after_shutdown() {
 	vAssert(connects == 0, "no-connect-callback-after-shutdown")
 	vAssert(n.hub.NumClients() == 0, "no-registered-connection-after-shutdown")
 }
+
+// C08 (connect callback first, with a SLOW connect handler): the connect
+// callback is still running while virtual time passes (30 s: beyond the first
+// presence/alive tick, the ping interval and the stale delay); no other
+// per-connection callback may start before it has returned.
+func vh_C08_slow_connect_handler() {
+	n := vNewNode(Config{})
+	var log []string
+	n.OnConnect(func(c *Client) {
+		log = append(log, "connect-enter")
+		c.OnAlive(func() { log = append(log, "alive") })
+		c.OnDisconnect(func(e DisconnectEvent) { log = append(log, "disconnect") })
+		c.OnRefresh(func(e RefreshEvent, cb RefreshCallback) {
+			log = append(log, "refresh")
+			cb(RefreshReply{ExpireAt: vNowNano()/1_000_000_000 + 100}, nil)
+		})
+		vAdvance(30_000_000_000) // the handler is slow
+		vSettle()
+		log = append(log, "connect-exit")
+	})
+	tr := vNewTransport()
+	exp := int64(0)
+	if vChoice("expiring_credentials", 2) == 1 {
+		exp = vNowNano()/1_000_000_000 + 5
+	}
+	ctx := SetCredentials(context.Background(), &Credentials{UserID: "u", ExpireAt: exp})
+	c, _, err := NewClient(ctx, n, tr)
+	vAssert(err == nil, "new client")
+	vConnect(c) // runs on this thread: the handler's vAdvance is this thread's
+	vSettle()
+	vAdvance(60_000_000_000)
+	vSettle()
+	enter, exit := -1, -1
+	for k, e := range log {
+		if e == "connect-enter" {
+			enter = k
+		}
+		if e == "connect-exit" {
+			exit = k
+		}
+	}
+	vAssert(enter == 0 && exit > 0, "connect callback ran")
+	vAssert(exit == 1, "no other callback while the connect callback is running")
+	vCover(len(log) > 2, "callbacks-after-connect")
+	_ = c
+}
